@@ -4,7 +4,8 @@
   <fields> = `-` or `Name=<hex>,Name=<hex>` (declaration order, zero values absent)
 
   subscribe.split <request>        splitSubscribeRequest: `ok T:<target> <request> | T:… ` (sorted by target), `err <class>`, `panic`
-  subscribe.init <sid> dev:<target>=<r<id>|o<id>,…> …   a new stream named <sid>; the connected targets and what each sends back
+  subscribe.init <sid> dev:<target>=<round>/<round>/… …   a new stream named <sid>; the connected targets and what each sends back:
+                 round 0 on the subscription, round k on the k-th poll; <round> = comma list of r<id> (update), y (sync_response), o<id> (not a SubscribeResponse)
   subscribe.msg <sid> <request>    one message on that stream: `ok|err <class>` then per target `| T:<t> [sub <request>] [relay:<ids>] [poll]`
   subscribe.eof <sid> / subscribe.recverr <sid>   the subscriber's stream ends
   (a line naming a stream other than the one opened last is answered `no-stream`)
@@ -84,17 +85,20 @@ def encSplit : Except Panic (Except Err TReqs) → String
   | .ok (.ok m) =>
     "ok " ++ " | ".intercalate ((sortBy (fun kr => kr.1) m).map fun kr => "T:" ++ encStr kr.1 ++ " " ++ encReq kr.2)
 
-def decDevTok (tok : String) : Option (Str × List DevMsg) := do
+def decDevTok (tok : String) : Option (Str × List (List DevMsg)) := do
   let body ← stripTag "dev:" tok
   match body.splitOn "=" with
-  | [t, ms] =>
+  | [t, rs] =>
     let target ← decStr t
     let decMsg : String → Option DevMsg := fun m =>
-      if m.startsWith "r" then (decStr (m.drop 1).toString).map DevMsg.resp
+      if m == "y" then some DevMsg.sync
+      else if m.startsWith "r" then (decStr (m.drop 1).toString).map DevMsg.resp
       else if m.startsWith "o" then (decStr (m.drop 1).toString).map DevMsg.other
       else none
-    let msgs ← (if ms.isEmpty then some [] else (ms.splitOn ",").mapM decMsg)
-    pure (target, msgs)
+    let decRound : String → Option (List DevMsg) := fun r =>
+      if r.isEmpty then some [] else (r.splitOn ",").mapM decMsg
+    let rounds ← (if rs.isEmpty then some [] else (rs.splitOn "/").mapM decRound)
+    pure (target, rounds)
   | _ => none
 
 def outTarget : Out → Str
